@@ -8,6 +8,7 @@ operations `o : Gen.PlotOps D A F M C Z` (lean/XyzModel/Gen/DefaultPlotSrc.lean)
                                                      sub-dataset (positional, `.loc` on ValueError / ds[z] / the dataset), the
                                                      arrays taken, broadcast + flatten, the mask, what is yielded, _c_cols
     plGenX         prepare_x_vals_histogram.gen_x    the histogram generator
+    plColorNorm    Plotter.calc_color_norm           the limits handed to the normalisation (zlims / finite data range / caller's vmin, vmax)
     plLoopNexts    LinePlot.plot_lines / Scatter.plot_scatter / Histogram.plot_histogram: the iterators advanced by `next(..)`
                                                      once per yielded series (unconditionally / conditionally)
 
@@ -718,6 +719,99 @@ def a_plLoopNexts(T):
     return '[' + ', '.join(out) + ']'
 
 
+# ============================================================================================ calc_color_norm
+def a_plColorNorm(T):
+    """the limits handed to the colour normalisation: the statements of `calc_color_norm` after the early return, as straight-line
+    code with `if`s over the state (_zmin, _zmax, vmin, vmax : Option LimV).  Values: the caller's vmin / vmax (`LimV.arg 0|1
+    isZero`), `zlims[i]` (`LimV.zlim i`), the finite data minimum / maximum (`finite.min()` / `finite.max()` of
+    `finite = ds[coo].where(np.isfinite(ds[coo]))`), float constants."""
+    import re
+    f = find(T['core'], ['Plotter', 'calc_color_norm'])
+    _no_extra_params(f, ['self'])
+    INPUT = {'self.vmin': 'vminV', 'self.vmax': 'vmaxV'}
+    st0 = {'self._zmin': None, 'self._zmax': None, 'self.vmin': 'vminV', 'self.vmax': 'vmaxV'}
+    lets, cnt, finite_names, out = [], [0], set(), []
+
+    def value(e, st):
+        k = _u(e)
+        if k in st:
+            if st[k] is None: raise Untranslatable(k + ' read before it is set')
+            return st[k]
+        if isinstance(e, ast.Constant) and e.value is None: return 'none'
+        if isinstance(e, ast.Constant) and isinstance(e.value, (int, float)) and not isinstance(e.value, bool):
+            return f'(some (LimV.const {lean_str(repr(float(e.value)))}))'
+        m = re.fullmatch(r'self\.zlims\[([01])\]', k)
+        if m: return f'(if {"zlimLo" if m.group(1) == "0" else "zlimHi"} then some (LimV.zlim {m.group(1)}) else none)'
+        m = re.fullmatch(r'(?:float\()?(\w+)\.(min|max)\(\)(?:\.values)?(?:\.item\(0?\))?\)?', k)
+        if m and m.group(1) in finite_names: return f'(some LimV.data{m.group(2).capitalize()})'
+        if isinstance(e, ast.IfExp):
+            return f'(if {test(e.test, st)} then {value(e.body, st)} else {value(e.orelse, st)})'
+        if isinstance(e, ast.BoolOp) and isinstance(e.op, ast.Or) and len(e.values) == 2:
+            return f'(if {test(e.values[0], st)} then {value(e.values[0], st)} else {value(e.values[1], st)})'
+        raise Untranslatable('limit value ' + k[:60])
+
+    def test(e, st):
+        k = _u(e)
+        if re.search(r'\.dtype\.kind in ', k) and sorted(re.findall(r"'(\w)'", k)) == ['f', 'i', 'u']: return 'numeric'
+        if isinstance(e, ast.UnaryOp) and isinstance(e.op, ast.Not): return f'(!{test(e.operand, st)})'
+        if isinstance(e, ast.BoolOp):
+            return '(' + (' && ' if isinstance(e.op, ast.And) else ' || ').join(test(v, st) for v in e.values) + ')'
+        if isinstance(e, ast.Compare) and len(e.ops) == 1 and isinstance(e.ops[0], (ast.Is, ast.IsNot, ast.Eq, ast.NotEq)) \
+                and isinstance(e.comparators[0], ast.Constant) and e.comparators[0].value is None and _u(e.left) in st:
+            t = value(e.left, st)
+            return f'{t}.isNone' if isinstance(e.ops[0], (ast.Is, ast.Eq)) else f'{t}.isSome'
+        if k in INPUT and st[k] == INPUT[k]:
+            return f'(LimV.truthy {st[k]})'                     # truth value of the caller's argument: not None and not zero
+        raise Untranslatable('limit test ' + k[:60])
+
+    def block(stmts, st):
+        st = dict(st)
+        for s in stmts:
+            if isinstance(s, (ast.Import, ast.ImportFrom, ast.Pass)) or _is_doc(s): continue
+            if isinstance(s, ast.Expr) and isinstance(s.value, ast.Call) and _u(s.value.func) == 'self.set_mappable': continue
+            if isinstance(s, ast.If) and len(s.body) == 1 and isinstance(s.body[0], ast.Return) and s.body[0].value is None \
+                    and not s.orelse and _u(s.test) == 'coo is None':
+                continue                                         # nothing to colour by: outside this anchor
+            if isinstance(s, ast.Assign) and len(s.targets) == 1:
+                tg = s.targets[0]
+                if isinstance(tg, ast.Tuple) and isinstance(s.value, ast.Tuple) and len(tg.elts) == len(s.value.elts):
+                    vals = [value(v, st) for v in s.value.elts]
+                    for t, v in zip(tg.elts, vals):
+                        if _u(t) not in st: raise Untranslatable('assignment to ' + _u(t))
+                        st[_u(t)] = v
+                    continue
+                k = _u(tg)
+                if k in st:
+                    st[k] = value(s.value, st); continue
+                if k in ('self.cmap', 'coo'): continue
+                if isinstance(tg, ast.Name) and re.fullmatch(r'self\._ds\[coo\]\.where\(np\.isfinite\(self\._ds\[coo\]\)\)', _u(s.value)):
+                    finite_names.add(k); continue
+                if k == 'self._color_norm' and isinstance(s.value, ast.Call):
+                    kw = {x.arg: x.value for x in s.value.keywords}
+                    if set(kw) != {'vmin', 'vmax'} or s.value.args: raise Untranslatable('normalisation arguments')
+                    out.append((value(kw['vmin'], st), value(kw['vmax'], st))); continue
+                raise Untranslatable('assignment ' + _u(s)[:60])
+            if isinstance(s, ast.If):
+                c = test(s.test, st)
+                n_out = len(out)
+                a, b = block(s.body, st), block(s.orelse, st)
+                if len(out) != n_out: raise Untranslatable('normalisation built inside a branch')
+                for k in st0:
+                    if a[k] != st[k] or b[k] != st[k]:
+                        if a[k] is None or b[k] is None: raise Untranslatable(f'{k} set on one path only')
+                        cnt[0] += 1
+                        nm = f'{lname(k.split(".")[-1])}{cnt[0]}'
+                        lets.append(f'  let {nm} : Option LimV := if {c} then {a[k]} else {b[k]}')
+                        st[k] = nm
+                continue
+            raise Untranslatable('statement ' + _u(s)[:60])
+        return st
+    block(_body(f), st0)
+    if len(out) != 1: raise Untranslatable(f'{len(out)} normalisations')
+    return ('\n  let vminV : Option LimV := vmin.map fun a => LimV.arg 0 a\n  let vmaxV : Option LimV := vmax.map fun a => LimV.arg 1 a\n'
+            + '\n'.join(lets) + f'\n  ({out[0][0]}, {out[0][1]})')
+
+
 _OPS = '{D A F M C Z : Type} (o : PlotOps D A F M C Z)'
 ANCHORS = [
     ('plZVals', _OPS + ' (ds : D) (zCoo : Option String) (yCoo xCoo : NameArg) (grid : Bool) (mode : String) : '
@@ -730,4 +824,5 @@ ANCHORS = [
     ('plGenX', _OPS + ' (ds : D) (zVals : List (PZ Z)) (multiVar : Bool) (xCoo yCoo : String) (zCoo cCoo yErr xErr : Option String) '
      '(mode : String) : Except PErr (List (List (String × F)) × List C)', a_plGenX),
     ('plLoopNexts', ': List (String × List String × List String)', a_plLoopNexts),
+    ('plColorNorm', '(numeric : Bool) (vmin vmax : Option Bool) (zlimLo zlimHi : Bool) : Option LimV × Option LimV', a_plColorNorm),
 ]
